@@ -45,6 +45,8 @@ def run_property(prop, repo_root, tier, seed, only=None, quiet=False, write=True
             for o in res:
                 if only and o.oid != only:
                     continue
+                if o.ok is None:
+                    errors.append({"rule": name, "error": "%s %s: %s (%s)" % (o.oid, o.instance, o.reason, o.where)})
                 obs.append(o)
         extra["inventory"] = repo.inventory()
         extra["call_sites"] = repo.call_inventory()
@@ -72,7 +74,7 @@ def run_property(prop, repo_root, tier, seed, only=None, quiet=False, write=True
     new_viol = []
     known_hits = []
     for o in obs:
-        if o.ok:
+        if o.ok is not False:
             continue
         k = report.is_known(known, prop, o)
         if k:
